@@ -555,6 +555,7 @@ pub fn generate(run_seed: u64, quick: bool) -> Scenario {
         corrupt_events: corrupt_events as u32,
         variants: vec![],
         repeat_check: false,
+        fresh_reference: false,
     }
 }
 
